@@ -313,6 +313,10 @@ def run(ctx):
         if len(ctx.violations) >= 3:
             break
     tie.flush()
+    if ctx.prop == "C13" and len(ctx.violations) < 3:
+        # section / module / IR scope against the Lean model `SymScopes`
+        import index_stream
+        index_stream.run_sym(ctx)
 
 
 def search(ctx, broken):
